@@ -4,6 +4,7 @@
 //
 //	c19 c19dns     -in schedules.ndjson   replay DNSCache_gen schedules against fclient.DNSCache
 //	c19 c19keys    -in schedules.ndjson   replay KeyFetchPool_gen schedules against DirectKeyFetcher.FetchKeys
+//	c19 c19keysizes -in sizes.ndjson      FetchKeys over 1..130 distinct servers: result and termination
 //	c19 c19tr      -in schedules.ndjson   replay TransportCache_gen schedules against the federation round tripper
 //	c19 c19stress  -in cases.ndjson       one stress case per record (events / verify / dns), results vs sequential
 //
@@ -32,6 +33,9 @@ func main() {
 	})
 	hx.Register("c19keys", "replay KeyFetchPool_gen schedules against DirectKeyFetcher.FetchKeys", func(a *hx.Args) error {
 		return hx.ReplayAll(a, func(i int, raw json.RawMessage) hx.Result { return keysReplay(raw) })
+	})
+	hx.Register("c19keysizes", "FetchKeys over N distinct servers around the worker limit (instant scripted KeyClient)", func(a *hx.Args) error {
+		return hx.ReplayAll(a, func(i int, raw json.RawMessage) hx.Result { return sizesReplay(raw) })
 	})
 	hx.Register("c19tr", "replay TransportCache_gen schedules against destinationTripper", func(a *hx.Args) error {
 		stop, err := trSetup()
